@@ -246,6 +246,8 @@ func (e *Engine) registerIntrinsics() {
 	e.intr["strings.Split"] = intrStringsSplit
 	e.intr["strings.Contains"] = intrStringsContains
 	e.intr["strings.HasPrefix"] = intrStringsHasPrefix
+	// the hash functions COSE algorithms need are linked into every binary that imports go-cose
+	e.intr["(crypto.Hash).Available"] = func(e *Engine, c *CallCtx) []Outcome { return one(c.St, True) }
 	e.intr["strconv.Atoi"] = intrAtoi
 	e.intr["strconv.ParseInt"] = intrParseInt
 	e.intr["unicode/utf8.ValidString"] = func(e *Engine, c *CallCtx) []Outcome {
